@@ -4,7 +4,7 @@ from ..contracts_api import ContractDB
 
 def build_db():
     db = ContractDB()
-    from . import render, html, attrs, children, helpers, tagify, hooks, document, serial, jsx, paths, equality, depinit
+    from . import render, html, attrs, children, helpers, tagify, hooks, document, serial, jsx, paths, equality, depinit, astags
     render.register(db)
     html.register(db)
     attrs.register(db)
@@ -18,6 +18,7 @@ def build_db():
     paths.register(db)
     equality.register(db)
     depinit.register(db)
+    astags.register(db)
     return db
 
 
